@@ -11,8 +11,15 @@
    plus an environment step: any other user of the pool may overwrite a buffer that is IN the pool.
    A buffer is identified by a number; [mem] is what it currently holds (a content, as everywhere in
    C01_model: two byte strings are the same content iff they have the same cid and length).
-   [early = true] is a VARIANT in which handleGET gives its buffer back as soon as GetBlock has returned,
-   i.e. before the body is written; it is used only for the regression witness in proofs/C01_pool_proofs.v.
+   A PUT whose body does not arrive completely (op PutShort: io.ReadFull returns an error) leaves in its
+   buffer the bytes that did arrive followed by whatever the buffer held before: [splice s d old n] is
+   that mixture (abstract, like every content); the handler answers 500 without looking at it and gives
+   the buffer back once.
+   VARIANTS, used only for the regression witnesses in proofs/C01_pool_proofs.v:
+   [early = true]: handleGET gives its buffer back as soon as GetBlock has returned, i.e. before the body
+   is written; [lenient = true]: handlePUT goes on to PutBlock after a short read (the checksum test then
+   sees the mixture); [twice = true]: the failed-read branch gives the buffer back and the handler gives
+   it back again on return, so the pool holds it twice.
    Definitions only. *)
 From Coq Require Import NArith List String Bool Arith.
 From AV Require Import lib.Str model.C01_model.
@@ -36,16 +43,20 @@ Record pst := {
   mem : nat -> content;              (* what each buffer holds *)
   thr : list (op * ppc);             (* the requests in flight *)
   lin : list (nat * op * resp);      (* ghost: (thread, request, answer of the sequential handler) at each volume step, newest first *)
-  early : bool
+  early : bool;
+  lenient : bool;
+  twice : bool;
+  splice : content -> content -> N -> content
 }.
 
 Definition upd_mem (m : nat -> content) (b : nat) (x : content) : nat -> content :=
   fun k => if Nat.eqb k b then x else m k.
 
+(* the pool hands out ONE of its entries *)
 Fixpoint remove_nat (b : nat) (l : list nat) : list nat :=
   match l with
   | [] => []
-  | x :: r => if Nat.eqb x b then remove_nat b r else x :: remove_nat b r
+  | x :: r => if Nat.eqb x b then r else x :: remove_nat b r
   end.
 
 Fixpoint set_thr (l : list (op * ppc)) (i : nat) (p : ppc) : list (op * ppc) :=
@@ -68,13 +79,15 @@ Inductive lbl :=
 | Scribble (b : nat) (x : content).  (* some other user of the pool overwrites buffer b, which must be in the pool *)
 
 Definition mk (s : pst) (k : state) (f : list nat) (m : nat -> content) (i : nat) (p : ppc) (l : list (nat * op * resp)) : pst :=
-  {| ks := k; free := f; mem := m; thr := set_thr (thr s) i p; lin := l; early := early s |}.
+  {| ks := k; free := f; mem := m; thr := set_thr (thr s) i p; lin := l; early := early s;
+     lenient := lenient s; twice := twice s; splice := splice s |}.
 
 Definition in_pool (s : pst) (b : nat) : bool := existsb (Nat.eqb b) (free s).
 
 Definition step (s : pst) (a : lbl) : option pst :=
   match a with
-  | Scribble b x => if in_pool s b then Some {| ks := ks s; free := free s; mem := upd_mem (mem s) b x; thr := thr s; lin := lin s; early := early s |} else None
+  | Scribble b x => if in_pool s b then Some {| ks := ks s; free := free s; mem := upd_mem (mem s) b x; thr := thr s; lin := lin s; early := early s;
+                                                  lenient := lenient s; twice := twice s; splice := splice s |} else None
   | Run i b0 =>
     match nth_error (thr s) i with
     | None => None
@@ -82,7 +95,7 @@ Definition step (s : pst) (a : lbl) : option pst :=
       match p, o with
       | W, (Get _ | Head _) =>
           if in_pool s b0 then Some (mk s (ks s) (remove_nat b0 (free s)) (mem s) i (GHave b0) (lin s)) else None
-      | W, Put _ _ =>
+      | W, (Put _ _ | PutShort _ _ _) =>
           if in_pool s b0 then Some (mk s (ks s) (remove_nat b0 (free s)) (mem s) i (PHave b0) (lin s)) else None
       | GHave b, (Get h | Head h) =>
           let r := handle_get H (ks s) h in
@@ -101,6 +114,18 @@ Definition step (s : pst) (a : lbl) : option pst :=
           (* PutBlock hashes, compares and writes the bytes that are in the buffer NOW *)
           let '(r, k') := handle_put H (ks s) h (mem s b) in
           Some (mk s k' (free s) (mem s) i (Resp b r) ((i, o, fst (handle_put H (ks s) h d)) :: lin s))
+      | PHave b, PutShort h d n =>
+          (* io.ReadFull(req.Body, buf) returns an error: http.Error(500), bufs.Put(buf), return *)
+          let m' := upd_mem (mem s) b (splice s d (mem s b) n) in
+          if lenient s then Some (mk s (ks s) (free s) m' i (PRead b) (lin s))
+          else let r := handle_put_short (ks s) n in
+               Some (mk s (ks s) (if twice s then b :: free s else free s) m' i (Resp b r) ((i, o, r) :: lin s))
+      | PRead b, PutShort h d n =>
+          (* VARIANT lenient only *)
+          if lenient s
+          then let '(r, k') := handle_put H (ks s) h (mem s b) in
+               Some (mk s k' (free s) (mem s) i (Resp b r) ((i, o, r) :: lin s))
+          else None
       | Resp b r, _ => Some (mk s (ks s) (b :: free s) (mem s) i (Fin r) (lin s))
       | _, _ => None
       end
@@ -115,7 +140,13 @@ Fixpoint steps (s : pst) (ls : list lbl) : option pst :=
 
 (* initial states: every request is waiting for a buffer; the pool holds distinct buffers; the buffers
    hold anything *)
+Definition init_pool_gen (k : state) (bufs : list nat) (m : nat -> content) (reqs : list op) (e le tw : bool)
+                         (sp : content -> content -> N -> content) : pst :=
+  {| ks := k; free := bufs; mem := m; thr := map (fun o => (o, W)) reqs; lin := []; early := e;
+     lenient := le; twice := tw; splice := sp |}.
+(* the handlers as they are (e = false) resp. the early-release variant (e = true); the mixture left by a
+   short read is represented by the bytes that arrived *)
 Definition init_pool (k : state) (bufs : list nat) (m : nat -> content) (reqs : list op) (e : bool) : pst :=
-  {| ks := k; free := bufs; mem := m; thr := map (fun o => (o, W)) reqs; lin := []; early := e |}.
+  init_pool_gen k bufs m reqs e false false (fun d _ _ => d).
 
 End POOL.
